@@ -2,6 +2,7 @@ package main
 
 import (
 	"encoding/json"
+	"errors"
 	"fmt"
 	"os"
 	"path/filepath"
@@ -336,8 +337,23 @@ func c04Run(s *c04Scn, segName string) verdict {
 
 			var rerr error
 
+			// every second time the transport's own Close reports an error (the peer is already gone) although it did close:
+			// the session is over all the same, and the next one starts from nothing
+			closeErr := (s.ID/2+j)%2 == 0
+
 			finR, panR := withWatchdog(8*time.Second, func() {
+				if closeErr {
+					pipe.Lock()
+					pipe.CloseErr = errors.New("close: connection reset by peer")
+					pipe.Unlock()
+				}
+
 				_ = d.Close()
+
+				pipe.Lock()
+				pipe.CloseErr = nil
+				pipe.Unlock()
+
 				rerr = d.Open()
 			})
 			if !finR || panR != nil || rerr != nil {
